@@ -162,10 +162,98 @@ def check_table(res, repo):
             res.errors.append(f"_build_indicator no longer contains `{need}` (reader of the table changed; re-derive the rule)")
 
 
+def binding_by_evaluation(repo, raw_required=True):
+    """Hexital._validate_indicators evaluated (convsem) on a strategy with a default and a 'T5' manager and four indicators
+    (no timeframe, 'T5', 'H1', 'H1' again): who gets which manager, how the missing one is built and registered.
+    -> None (undecided) or a list of problems (empty: the binding holds)"""
+    from .. import convsem as cs
+
+    it = cs.Interp(repo, "hexital.core.hexital", "Hexital")
+    try:
+        default = it.module_const("DEFAULT_CANDLES")
+    except cs.Undecided:
+        return None
+    if default is cs._MISSING:
+        return None
+    base = []
+    for i in range(2):
+        c_ = cs.ObjV(f"base candle {i}", {}, "Candle")
+        c_.attrs["raw_copy"] = (lambda c__: (lambda a, k: cs.ObjV("raw copy", {"of": c__}, "Candle")))(c_)
+        base.append(c_)
+    m0 = cs.ObjV("default manager", {"candles": base, "name": default, "timeframe": None}, "CandleManager")
+    m1 = cs.ObjV("T5 manager", {"candles": [], "name": "T5", "timeframe": "T5"}, "CandleManager")
+    created = []
+
+    def new_manager(a, k):
+        kw = dict(k)
+        if a:
+            kw.setdefault("candles", a[0])
+        tf = kw.get("timeframe")
+        o = cs.ObjV(f"new manager {len(created)}", {"candles": kw.get("candles"), "timeframe": tf, "name": tf if tf else default, "kwargs": kw}, "CandleManager")
+        created.append(o)
+        return o
+
+    it.intercept["CandleManager"] = new_manager
+    LIFE, CST = cs.Sym("the lifespan", "timedelta"), cs.ObjV("the candlestick type", {}, "CandlestickType")
+    selfo = cs.ObjV("self", {"_candles": {default: m0, "T5": m1}, "_indicators": {}, "candles_lifespan": LIFE, "timeframe_fill": False, "candlestick_type": CST, "timeframe": None}, "Hexital")
+    inds = []
+    for n_, tf in (("A", None), ("B", "T5"), ("C", "H1"), ("D", "H1"), ("E", "H4")):
+        # (the members carry settings of their own: what a manager is built with is the strategy's, not the first member's)
+        inds.append(cs.ObjV(f"indicator {n_}", {"name": n_, "timeframe": tf, "timeframe_fill": True, "candles_lifespan": cs.Sym("a member's lifespan", "timedelta"), "candlestick_type": None}, "Indicator"))
+    try:
+        out = it.call_function(it.method("_validate_indicators"), [list(inds)], {}, bound_first=selfo)
+    except (cs.Undecided, cs.Raised, RecursionError):
+        return None
+    problems = []
+    if not isinstance(out, dict) or list(out) != ["A", "B", "C", "D", "E"] or any(out[k] is not o for k, o in zip("ABCDE", inds)):
+        problems.append(f"the validated indicators are {list(out) if isinstance(out, dict) else out!r}, expected A, B, C, D, E in the given order")
+    a, b, c, d, e_ = (o.attrs.get("candle_manager") for o in inds)
+    if a is not m0:
+        problems.append(f"an indicator without a timeframe is bound to {a!r}, not to the default manager")
+    if b is not m1:
+        problems.append(f"an indicator on 'T5' is bound to {b!r}, not to the registered 'T5' manager")
+    if len(created) != 2:
+        problems.append(f"{len(created)} managers are created for the new timeframes 'H1' (two indicators) and 'H4' (one): expected two")
+    else:
+        n, n4 = created
+        if e_ is not n4 or selfo.attrs["_candles"].get("H4") is not n4:
+            problems.append(f"the indicator on 'H4' is bound to {e_!r}; expected the second new manager, registered under 'H4'")
+        s1, s4 = n.attrs["kwargs"].get("candles"), n4.attrs["kwargs"].get("candles")
+        if isinstance(s1, (list, tuple)) and isinstance(s4, (list, tuple)) and (s1 is s4 or any(x is y for x in s1 for y in s4)):
+            problems.append("the two new managers are seeded with the same Candle objects: collapsing one timeframe rewrites the other's candles")
+        if c is not n or d is not n:
+            problems.append(f"the indicators on 'H1' are bound to {c!r} / {d!r}, not both to the new manager")
+        reg = selfo.attrs["_candles"]
+        if reg.get("H1") is not n or list(reg) != [default, "T5", "H1", "H4"]:
+            problems.append(f"the new manager is registered as {[k for k, v in reg.items() if v is n]} (registry keys {list(reg)}), expected under its name 'H1'")
+        kw = n.attrs["kwargs"]
+        if kw.get("timeframe") != "H1":
+            problems.append(f"the new manager collapses to {kw.get('timeframe')!r}, not to the indicator's timeframe 'H1'")
+        for key, want in (("candles_lifespan", LIFE), ("timeframe_fill", False), ("candlestick_type", CST)):
+            if kw.get(key) is not want:
+                problems.append(f"the new manager is created with {key}={kw.get(key)!r} instead of the Hexital-level setting")
+        seeded = kw.get("candles")
+        if not isinstance(seeded, (list, tuple)) or len(seeded) != len(base) or seeded is base:
+            problems.append(f"the new manager is seeded with {seeded!r}: expected its own list with one copy of each base candle")
+        elif raw_required and not all(isinstance(x, cs.ObjV) and x.attrs.get("of") is y for x, y in zip(seeded, base)):
+            problems.append("the new manager is not seeded with candle.raw_copy() of each base candle (shared or already converted candles corrupt its buckets)")
+        elif not raw_required and any(x is y for x, y in zip(seeded, base)):
+            problems.append("the new manager shares Candle objects with the default manager")
+    return problems
+
+
 def check_binding(res, repo, prop="C08", raw_required=True):
     rule = "R-BIND"
     vi = repo.method("hexital.core.hexital", "Hexital", "_validate_indicators")
     fn = vi.node
+    _sem = binding_by_evaluation(repo, raw_required)
+    if _sem is not None:
+        if not _sem:
+            res.ok(rule, {"site": vi.where, "why": "evaluated on four indicators (no timeframe / registered 'T5' / new 'H1' twice): default and registered managers are reused, one new manager is created, registered under its name, seeded with raw copies and given the Hexital-level settings"}, nontrivial="binding:evaluated")
+            res.ok("R-ALIAS", {"site": vi.where, "why": "each new timeframe manager gets its own raw copies of the base candles"}, nontrivial="validate:raw_copy")
+        for pr in _sem[:3]:
+            res.fail(rule, finding(prop, rule, vi, fn, f"{pr}: members no longer run on the candles a standalone indicator of that timeframe would see", construct=f"binding: {pr[:120]}"))
+        return
     loops = [n for n in fn.body if isinstance(n, ast.For)]
     bind_loop = None
     for lp in loops:
@@ -267,7 +355,7 @@ def run(repo, tier) -> Result:
 
     check_raw_copies("C08", res, repo, want=("method", "append"))
     res.rule("R-TABLE", floor=60)
-    res.rule("R-BIND", floor=8)
+    res.rule("R-BIND", floor=1)
     from ..framework_rules import check_registry_writers
     from ..ownership import check_manager_purge
 
